@@ -324,6 +324,72 @@ pub fn eval_whitelist(order: &[usize], with_encoding: bool, st: &mut Stats) -> R
     Ok(())
 }
 
+/// The symbol list given to the builder is the list that is used, whatever the order in which the
+/// builder's options are set: all 24 orders of the four setters give the same symbol and codewords,
+/// the picked symbol is in the list, and `encode_gs1` agrees with the builder.
+pub fn eval_builder_order(order: &[usize], mode_bits: u8, macros: bool, fnc1: bool, data: &[u8], st: &mut Stats) -> Result<(), String> {
+    let l = SymbolList::with_whitelist(order.iter().map(|i| SIZES[*i]));
+    let modes = bridge::modes(mode_bits);
+    let mut first: Option<Result<(usize, Vec<u8>), String>> = None;
+    let mut perm = [0usize, 1, 2, 3];
+    for p in 0..24 {
+        // p-th permutation by factorial digits
+        let mut items = vec![0usize, 1, 2, 3];
+        let mut k = p;
+        for (slot, f) in [6usize, 2, 1, 1].iter().enumerate() {
+            perm[slot] = items.remove(k / f);
+            k %= f;
+        }
+        let r = guarded(|| {
+            let mut b = DataMatrixBuilder::new();
+            for step in perm {
+                b = match step {
+                    0 => b.with_symbol_list(l.clone()),
+                    1 => b.with_encodation_types(modes),
+                    2 => b.with_macros(macros),
+                    _ => b.with_fnc1_start(fnc1),
+                };
+            }
+            b.encode(data)
+        })
+        .map_err(|p| format!("encode: {}", p))?;
+        let r: Result<(usize, Vec<u8>), String> = match r {
+            Ok(dm) => Ok((bridge::ref_index(dm.size), dm.codewords().to_vec())),
+            Err(e) => Err(format!("{:?}", e)),
+        };
+        if let Ok((si, _)) = &r {
+            if !order.contains(si) {
+                return Err(format!("setter order {:?}: symbol {} picked, which is not in the list", perm, SYMBOLS[*si].name()));
+            }
+        }
+        match &first {
+            None => first = Some(r),
+            Some(f) => {
+                if *f != r {
+                    let show = |x: &Result<(usize, Vec<u8>), String>| match x { Ok((si, _)) => SYMBOLS[*si].name(), Err(e) => e.clone() };
+                    return Err(format!("setter order {:?} gives {}, the order [0, 1, 2, 3] (list, modes, macros, fnc1) gives {}", perm, show(&r), show(f)));
+                }
+            }
+        }
+    }
+    if fnc1 && macros && mode_bits == bridge::ALL_MODES {
+        let g = guarded(|| DataMatrix::encode_gs1(data, l.clone())).map_err(|p| format!("encode_gs1: {}", p))?;
+        let g: Result<(usize, Vec<u8>), String> = match g {
+            Ok(dm) => Ok((bridge::ref_index(dm.size), dm.codewords().to_vec())),
+            Err(e) => Err(format!("{:?}", e)),
+        };
+        // encode_gs1 documents no macro handling of its own; only the symbol and refusal are compared
+        match (&g, first.as_ref().unwrap()) {
+            (Ok((a, _)), Ok((b, _))) if a == b => {}
+            (Err(_), Err(_)) => {}
+            (a, b) => return Err(format!("encode_gs1 gives {:?}, the builder with FNC1 start gives {:?}", a.as_ref().map(|x| SYMBOLS[x.0].name()), b.as_ref().map(|x| SYMBOLS[x.0].name()))),
+        }
+    }
+    st.count("builder_orders_checked");
+    st.count("nontrivial");
+    Ok(())
+}
+
 fn range_forms(a: usize, b: usize) -> [(Bound<usize>, Bound<usize>); 2] {
     [(Bound::Included(a), Bound::Excluded(b)), (Bound::Included(a), Bound::Included(b))]
 }
@@ -456,13 +522,45 @@ pub fn run(ctx: &Ctx) -> i32 {
         let def: Vec<usize> = ListMask::default_list().indices();
         w.check(30, || wdesc(&def, false), |st| eval_whitelist(&def, false, st));
     });
+    // 5. builder: the order of the option setters does not matter, the given list is the list used
+    {
+        let lists: Vec<Vec<usize>> = vec![
+            vec![gen::idx(44, 44)],
+            vec![gen::idx(18, 18)],
+            vec![gen::idx(10, 10), gen::idx(16, 16)],
+            vec![gen::idx(8, 48), gen::idx(12, 64), gen::idx(26, 40)],
+            vec![gen::idx(12, 26), gen::idx(8, 32), gen::idx(24, 24)],
+            ListMask::default_list().indices(),
+        ];
+        let datas: Vec<Vec<u8>> = vec![
+            b"".to_vec(),
+            b"0104012345678901".to_vec(),
+            b"Hello, World! 12345678901234567890".to_vec(),
+            { let mut m = gen::MACRO05.to_vec(); m.extend(b"ABC123"); m.extend_from_slice(gen::MACRO_TRAIL); m },
+            vec![0xE1; 20],
+        ];
+        let bdesc = |o: &[usize], mb: u8, ma: bool, f: bool, d: &[u8]| json!({"kind": "builder", "order": o.iter().map(|i| bridge::size_name(*i)).collect::<Vec<_>>(), "modes": mb, "macros": ma, "fnc1": f, "data": crate::explore::hex(d)});
+        ctx.par(lists.len() as u64, |c, w| {
+            let o = &lists[c as usize];
+            w.label(|| format!("builder setter orders, list {}", c));
+            for mb in [bridge::ALL_MODES, 1u8, 0x3e, 0x21] {
+                for ma in [true, false] {
+                    for f in [false, true] {
+                        for d in &datas {
+                            w.check(o.len() as u64, || bdesc(o, mb, ma, f, d), |st| eval_builder_order(o, mb, ma, f, d, st));
+                        }
+                    }
+                }
+            }
+        });
+    }
     let cov = json!({
         "evaluations": ctx.evaluations(),
         "distinct_nontrivial": ctx.counter("nontrivial"),
         "rule": "48 sizes x (data/total codewords, pixel dimensions, every finder/alignment module of the region layout, size detection, interleaved blocks via the support of the EC response to every unit data vector) against \
 ISO/IEC 16022 Table 7 / ISO/IEC 21471 (R2, R4); default = the 30 ISO 16022 sizes, extended = 48; enforce_width_in / enforce_height_in for every range a..b, a..=b, a.., (a,inf), ..a, ..=a, .. with a, b in 0..=150 on both lists; \
 compositions of 2 (all) and 3 (quick: half of the pairs extended by every third filter; thorough: all) filters over a reduced bound set; all 4095 subsets of a 12-symbol set as shuffled white-lists (+ reversed), all singles and ordered pairs: membership, \
-iteration by non-decreasing capacity, and for every k in 0..=maxcap+1 the symbol picked for k ASCII codewords (k bytes 0x7F in ASCII mode, and 2k digits with all modes) is the first of the iteration order that is large enough. All cases distinct; non-trivial = filter result differs from the unfiltered lists / any white-list / any size.",
+iteration by non-decreasing capacity, and for every k in 0..=maxcap+1 the symbol picked for k ASCII codewords (k bytes 0x7F in ASCII mode, and 2k digits with all modes) is the first of the iteration order that is large enough (likewise for macro 05 messages and binary data); builder: for six lists x four mode sets x macros x FNC1 x five messages all 24 orders of the four option setters give the same symbol and codewords, the symbol is in the list, encode_gs1 agrees. All cases distinct; non-trivial = filter result differs from the unfiltered lists / any white-list / any size.",
         "exhaustive": true,
         "picks_checked": ctx.counter("picks_checked"),
     });
@@ -480,6 +578,10 @@ pub fn replay(case: &Value) -> Result<(), String> {
         "filters" => {
             let fs: Vec<Filter> = case["filters"].as_array().ok_or("filters")?.iter().map(filter_from).collect();
             eval_filters(case["extended"].as_bool().unwrap_or(false), &fs, &mut st)
+        }
+        "builder" => {
+            let order: Result<Vec<usize>, String> = case["order"].as_array().ok_or("order")?.iter().map(idx_of).collect();
+            eval_builder_order(&order?, case["modes"].as_u64().ok_or("modes")? as u8, case["macros"].as_bool().unwrap_or(true), case["fnc1"].as_bool().unwrap_or(false), &crate::explore::unhex(case["data"].as_str().ok_or("data")?), &mut st)
         }
         "whitelist" => {
             let order: Result<Vec<usize>, String> = case["order"].as_array().ok_or("order")?.iter().map(idx_of).collect();
